@@ -183,7 +183,6 @@ JudgeAlgebra(ks, os, r) ==
       eqpar == {t \in Pairs(ks) : r.eq[t[1]][t[2]] /\ ~r.peq[t[1]][t[2]]}
       eqid  == {t \in Pairs(ks) : r.eq[t[1]][t[2]] /\ <<os[t[1]].id, os[t[1]].req>> # <<os[t[2]].id, os[t[2]].req>>}
       eqpfx == {t \in Pairs(ks) : r.eq[t[1]][t[2]] /\ os[t[1]].hasprefix /\ os[t[1]].prefix # os[t[2]].prefix}
-      eqacc == {t \in Pairs(ks) : r.eq[t[1]][t[2]] /\ os[t[1]].value # os[t[2]].value}
       priv  == {t \in Pairs(ks) : os[t[1]].pub.has /\ os[t[2]].pub.has /\ os[t[1]].gotype = os[t[2]].gotype}
       \* two private keys are Equal iff their public keys are Equal and their secret parts are equal
       piff  == {t \in priv : r.eq[t[1]][t[2]] # (r.pubeq[t[1]][t[2]] /\ os[t[1]].secret = os[t[2]].secret)}
@@ -199,7 +198,6 @@ JudgeAlgebra(ks, os, r) ==
   ELSE IF eqpar # {} THEN <<"doc: Equal keys whose parameters are not Equal", Lbl(ks, Pick(eqpar))>>
   ELSE IF eqid # {} THEN <<"doc: Equal keys with different IDRequirement()", Lbl(ks, Pick(eqid))>>
   ELSE IF eqpfx # {} THEN <<"doc: Equal keys with different OutputPrefix()", Lbl(ks, Pick(eqpfx))>>
-  ELSE IF eqacc # {} THEN <<"doc: Equal keys whose accessors report different values", Lbl(ks, Pick(eqacc))>>
   ELSE IF piff # {} THEN <<"doc: private keys are Equal iff their public keys are Equal and their secret parts are equal", Lbl(ks, Pick(piff))>>
   ELSE <<>>
 
@@ -239,9 +237,17 @@ FirstKeyBad(ks, os, i) ==
   IF i > Len(ks) THEN <<>>
   ELSE LET b == JudgeKey(ks[i], os[i]) IN IF b # <<>> THEN b ELSE FirstKeyBad(ks, os, i + 1)
 
+\* (C) Equal objects are indistinguishable: every accessor reports the same value on both (model-free; judged last so
+\* that a field Equal ignores is named by (B) where the model knows it)
+JudgeValues(ks, os, r) ==
+  LET eqacc == {t \in Pairs(ks) : r.eq[t[1]][t[2]] /\ os[t[1]].value # os[t[2]].value} IN
+  IF eqacc # {} THEN <<"doc: Equal keys whose accessors report different values", Lbl(ks, Pick(eqacc))>> ELSE <<>>
+
 \* the relations of a case: first the laws that need no model, then the reference model
 JudgeRel(ks, os, r) ==
-  LET b2 == JudgeAlgebra(ks, os, r) IN IF b2 # <<>> THEN b2 ELSE JudgeModel(ks, os, r)
+  LET b2 == JudgeAlgebra(ks, os, r) IN
+  IF b2 # <<>> THEN b2
+  ELSE LET b3 == JudgeModel(ks, os, r) IN IF b3 # <<>> THEN b3 ELSE JudgeValues(ks, os, r)
 
 \* the judgement of one case: every key on its own, then the relations
 JudgeCase(ks, os, r) ==
